@@ -20,6 +20,7 @@ func convN(name string, radix int, k *node) *node {
 func wrap(kind int, k *node) *node { return &node{Op: "wrap", A: kind, Kids: []*node{k}} }
 
 type pinnedCase struct {
+	f    string // base id of the finding this witness belongs to (battery skips of that finding do not apply to it)
 	tree *node
 	in   *cinput
 	op   string // conversion op name (with in)
@@ -43,31 +44,51 @@ func bitsOf(f float64) string {
 
 // Pinned regression witnesses (negative indices): the C05 defects seen in reconnaissance and found by this check.
 var pinned = []pinnedCase{
-	{tree: upd("++", 0, 0, neg(lit("0")))},                // x=-0; x++
-	{tree: upd("--", 0, 0, neg(lit("0")))},                // x=-0; x--
-	{tree: upd("++", 2, 0, neg(lit("0")))},                // ++x on -0
-	{tree: upd("++", 0, 0, sl("-0"))},                     // x="-0"; x++
-	{tree: upd("++", 0, 0, wrap(0, neg(lit("0"))))},       // x={valueOf(){return -0}}; x++
-	{tree: neg(neg(lit("0")))},                            // -(-0)
-	{tree: upd("++", 0, 0, lit("9007199254740992"))},      // x=2**53; x++
-	{tree: upd("--", 0, 0, neg(lit("9007199254740992")))}, // x=-(2**53); x--
-	{tree: lit("9007199254740993")},                       // literal above 2^53
-	{tree: convN("Number", -1, sl("-00"))},                // Number('-00')
-	{tree: convN("parseInt", -1, sl("-0"))},               // parseInt('-0')
-	{tree: convN("parseInt", -1, sl("123456789012345678901234567890"))},
-	{tree: bin("|", lit("1e21"), lit("0"))},        // 1e21|0
-	{tree: bin(">>>", neg(lit("1e21")), lit("0"))}, // -1e21>>>0
-	{in: numIn(1e21), op: "x|0"},
-	{in: numIn(-1e21), op: "x>>>0"},
-	{in: numIn(1e21), op: "new Int32Array([x])[0]"},
-	{in: strIn("-00"), op: "Number(x)"},
-	{in: strIn(" 1.5"), op: "-(-x)"},
-	{in: strIn("\u00855"), op: "Number(x)"},
-	{in: strIn("0x10000000000000000"), op: "Number(x)"},
-	{in: strIn("0x-1"), op: "Number(x)"},
+	{f: "C05-incdec-noncanonical", tree: upd("++", 0, 0, neg(lit("0")))},          // x=-0; x++
+	{f: "C05-incdec-noncanonical", tree: upd("--", 0, 0, neg(lit("0")))},          // x=-0; x--
+	{f: "C05-incdec-noncanonical", tree: upd("++", 2, 0, neg(lit("0")))},          // ++x on -0
+	{f: "C05-incdec-noncanonical", tree: upd("++", 0, 0, sl("-0"))},               // x="-0"; x++
+	{f: "C05-incdec-noncanonical", tree: upd("++", 0, 0, wrap(0, neg(lit("0"))))}, // x={valueOf(){return -0}}; x++
+	{f: "C05-neg-noncanonical", tree: neg(neg(lit("0")))},                         // -(-0)
+	{f: "C05-int-2p53plus1", tree: upd("++", 0, 0, lit("9007199254740992"))},      // x=2**53; x++
+	{f: "C05-int-2p53plus1", tree: upd("--", 0, 0, neg(lit("9007199254740992")))}, // x=-(2**53); x--
+	{f: "C05-int-2p53plus1", tree: lit("9007199254740993")},                       // literal above 2^53
+	{f: "C12-number-neg-zeros", tree: convN("Number", -1, sl("-00"))},             // Number('-00')
+	{f: "C12-parseint-neg-zero", tree: convN("parseInt", -1, sl("-0"))},           // parseInt('-0')
+	{f: "C12-parseint-large-imprecise", tree: convN("parseInt", -1, sl("123456789012345678901234567890"))},
+	{f: "C05-toint-wrap-2p63", tree: bin("|", lit("1e21"), lit("0"))},        // 1e21|0
+	{f: "C05-toint-wrap-2p63", tree: bin(">>>", neg(lit("1e21")), lit("0"))}, // -1e21>>>0
+	{f: "C05-toint-wrap-2p63", in: numIn(1e21), op: "x|0"},
+	{f: "C05-toint-wrap-2p63", in: numIn(-1e21), op: "x>>>0"},
+	{f: "C05-toint-wrap-2p63", in: numIn(1e21), op: "new Int32Array([x])[0]"},
+	{f: "C12-number-neg-zeros", in: strIn("-00"), op: "Number(x)"},
+	{f: "C05-unicode-string-tofloat", in: strIn(" 1.5"), op: "-(-x)"},
+	{f: "C12-number-nel-whitespace", in: strIn("\u00855"), op: "Number(x)"},
+	{f: "C12-long-nondecimal-string", in: strIn("0x10000000000000000"), op: "Number(x)"},
+	{f: "C12-number-prefix-sign", in: strIn("0x-1"), op: "Number(x)"},
+	// found by this check
+	{f: "C05-incdec-noncanonical", tree: upd("++", 0, 0, sl("5"))},                                       // x="5"; x++
+	{f: "C05-unicode-string-tofloat", tree: neg(sl("\u00a01.5"))},                                        // -"\u00a01.5": NaN
+	{f: "C05-unicode-string-tofloat", tree: &node{Op: "math", Lit: "abs", Kids: []*node{sl("\u00a05")}}}, // Math.abs("\u00a05"): NaN
+	{f: "C05-array-includes-negzero", tree: lit("0")},                                                    // [-0].includes(0)
+	{f: "C05-math-sign-returns-arg", tree: &node{Op: "math", Lit: "sign", Kids: []*node{sl("0")}}},       // Math.sign("0") returns the string
+	{f: "C05-mul-negzero", tree: bin("*", neg(lit("5")), lit("0"))},                                      // -5*0 is -0
+	{f: "C05-number-of-bigint", tree: &node{Op: "ta", A: 10, B: 0, Kids: []*node{neg(lit("1024"))}}},     // Number(2n**64n-1024n)
+	{f: "C05-bigint64array-fill-sign", tree: &node{Op: "ta", A: 9, B: 2, Kids: []*node{neg(lit("86"))}}}, // BigInt64Array.fill(-86n)
+	{f: "C05-int-2p53plus1", tree: &node{Op: "go", Go: &goLeaf{Kind: "int64", I: 9007199254740993}}},
+	{f: "C05-int-2p53plus1", tree: bin("+", lit("9007199254740992"), lit("1"))},
+	{f: "C05-string-tointeger-overflow", in: strIn("1e30"), op: "push.call({length:x})"},
+	{f: "C05-unicode-string-tofloat", in: strIn("\u00a05"), op: "Math.abs(x)"},
+	{f: "C05-math-sign-returns-arg", in: strIn("0"), op: "Math.sign(x)"},
+	{f: "C12-long-nondecimal-string", in: strIn("0b1" + strings.Repeat("0", 63)), op: "Number(x)"},
 }
 
+// pinFinding is the finding of the pinned witness being run ("" for generated cases).
+var pinFinding string
+
 func runPinned(c *core.Ctx, p pinnedCase) core.Result {
+	pinFinding = p.f
+	defer func() { pinFinding = "" }()
 	if p.tree != nil {
 		return runTreeCase(c, []*node{p.tree.clone()})
 	}
